@@ -109,6 +109,10 @@ var impSlices = impPkg{
 		{file: xslicesFile, name: "Partition", coqName: "gi_xslices_Partition", binders: "(s : list T) (f : T -> bool)", retTy: "Z", fuel: "(S (length s))",
 			outVars: []string{"s"}, outTy: "Z * list T"},
 		{file: xslicesFile, name: "Reduce", coqName: "gi_xslices_Reduce", binders: "(s : list T) (initial : U) (f : U -> T -> U)", retTy: "U", fuel: "(S (length s))"},
+		{file: xslicesFile, name: "Chunk", coqName: "gi_xslices_Chunk", binders: "(s : list T) (chunkSize : Z)", retTy: "list (list T)", fuel: "(S (length s))",
+			panics: map[string]string{"\"xslices.Chunk: chunkSize must be positive\"": "PNeg"}},
+		{file: xslicesFile, name: "Runs", coqName: "gi_xslices_Runs", binders: "(s : list T) (same : T -> T -> bool)", retTy: "list (list T)", fuel: "(S (length s))",
+			rewrite: map[string]string{"var runs": "[]"}},
 		{file: xslicesFile, name: "Reverse", coqName: "gi_xslices_Reverse", binders: "(s : list T)", fuel: "(S (length s))",
 			outVars: []string{"s"}, outTy: "list T"},
 	},
